@@ -763,40 +763,34 @@ class Context:
         def stringify_fn(*args):
             value = args[0] if args else UNDEFINED
 
-            # Convert JS value to Python for json.dumps, handling undefined specially
-            def to_json_value(v):
+            # JSON text of a JS value; None where there is none (undefined)
+            def serialize(v):
                 if v is UNDEFINED:
                     return None  # Will be filtered out for object properties
                 if v is NULL:
-                    return None
+                    return "null"
                 if isinstance(v, bool):
-                    return v
+                    return "true" if v else "false"
                 if isinstance(v, (int, float)):
-                    return v
+                    # Number::toString, not the host's repr; NaN and the
+                    # infinities have no JSON form and print as null
+                    return to_string(v) if math.isfinite(v) else "null"
                 if isinstance(v, str):
-                    return v
+                    return json.dumps(v)
                 if isinstance(v, JSArray):
                     # For arrays, undefined becomes null
-                    return [
-                        None if elem is UNDEFINED else to_json_value(elem)
-                        for elem in v._elements
-                    ]
+                    return "[" + ",".join(serialize(e) or "null" for e in v._elements) + "]"
                 if isinstance(v, JSObject):
                     # For objects, skip undefined values
-                    result = {}
+                    members = []
                     for k, val in v._properties.items():
-                        if val is not UNDEFINED:
-                            result[k] = to_json_value(val)
-                    return result
-                return None
+                        text = serialize(val)
+                        if text is not None:
+                            members.append(json.dumps(k) + ":" + text)
+                    return "{" + ",".join(members) + "}"
+                return "null"
 
-            py_value = to_json_value(value)
-            try:
-                return json.dumps(py_value, separators=(",", ":"))
-            except (TypeError, ValueError) as e:
-                from .errors import JSTypeError
-
-                raise JSTypeError(f"JSON.stringify: {e}")
+            return serialize(value) or "null"
 
         json_obj.set("parse", parse_fn)
         json_obj.set("stringify", stringify_fn)
